@@ -137,6 +137,9 @@ class CarbonClientProtocol(object):
         instrumentation.prior_stats.get('metricsReceived', 0)))
 
     self.sendDatapointsNow(self.factory.takeSomeFromQueue())
+    # compare what is left after this batch with the low watermark: this may have
+    # been the send that drained the queue, and nothing would call us again
+    queueSize = self.factory.queueSize
     if (self.factory.queueFull.called and queueSize < SEND_QUEUE_LOW_WATERMARK):
       if not self.factory.queueHasSpace.called:
         self.factory.queueHasSpace.callback(queueSize)
